@@ -30,19 +30,22 @@ def assemble_with_emitter_contract(program, emitter, outcome, file_exists):
         check("same_call", args[0] == "lda #1\n" and args[1] == "prog.s" and args[2] is emitter)
 
 
-def assemble_contract(program, status, outcome):
-    """Program.assemble: the status of assemble_with_emitter is returned unchanged; the emitter is an SFCWriter on the opened file."""
+def assemble_contract(program, status, outcome, mapping):
+    """Program.assemble: the status of assemble_with_emitter is returned unchanged; the emitter is an SFCWriter on the opened
+    file; the address mapping given is in force when the assembly starts."""
     ghost("callee_outcome", outcome)
     ghost("status", status)
     ghost("fs", {})
     try:
-        r = program.assemble("prog.s", "out.sfc")
+        r = program.assemble("prog.s", "out.sfc", mapping)
     except OSError:
         check("exception_only_when_callee_raises", outcome == 7)
         return
     check("status_propagated", r == status and outcome != 7)
     em = ghost_get("emitter_seen")
     check("sfc_writer_on_output_file", isinstance(em, SFCWriter) and em.file is ghost_get("opened:out.sfc"))
+    if mapping is not None:
+        check("mapping_applied", program.resolver.rom_type == mapping_rom_type(mapping))
 
 
 def assemble_as_patch_contract(program, status, outcome, mapping, copier):
@@ -86,3 +89,64 @@ def assemble_string_contract(program, emitter, parse_error, resolve_outcome, emi
     else:
         check("error_message_returned", r == parse_error and parse_error is not None)
         check("nothing_emitted_after_parse_error", ghost_get("trace") == ["parse"])
+
+
+# ------------------------------------------------------------------------------------------------ command line (C12)
+def mapping_rom_type(mapping):
+    if mapping == "low":
+        return RomType.low_rom
+    if mapping == "low2":
+        return RomType.low_rom_2
+    return RomType.high_rom
+
+
+def cli_main_contract(fmt, mapping, copier, defines, expected_defines, status):
+    """cli_main for one point of the option lattice: the selected mapping is in force for BOTH output formats, the copier
+    flag reaches the IPS writer, every -D NAME=VALUE is an integer constant of the root scope, input/output paths are passed
+    through, and the process exit status is the assembler's status."""
+    from a816.cli import cli_main
+    from vf.contracts.rt import cli_args
+    cli_args("prog.s", "out.bin", fmt, mapping, copier, defines)
+    ghost("status", status)
+    try:
+        cli_main()
+        check("exits_with_status", False)
+    except SystemExit as e:
+        check("exits_with_status", e.args[0] == status)
+    check("format_selects_entry_point", ghost_get("entry") == ("patch" if fmt == "ips" else "sfc"))
+    call = ghost_get("call")
+    check("paths_passed", str(call[0]) == "prog.s" and str(call[1]) == "out.bin")
+    rt_at_call = ghost_get("rom_type_at_call")
+    want = mapping_rom_type(mapping)
+    # the mapping is either already set on the resolver or handed to the entry point, which applies it (C14/C12 contracts of
+    # assemble_as_patch / assemble: mapping_applied)
+    check("mapping_applied", rt_at_call == want or call[2] == mapping)
+    if fmt == "ips":
+        check("copier_header_passed", call[3] is copier)
+    syms = ghost_get("root_symbols_at_call")
+    for name in expected_defines:
+        check("define_is_integer_constant", name in syms and syms[name] == expected_defines[name])
+
+
+def bus_mapping_total_contract(rom_type_name, v):
+    """BUS_MAPPING has a bus for every RomType; low2 is the LoROM layout addressed from bank 0x80."""
+    from a816.symbols import Resolver
+    from vf.specs import busmath
+    assume(0 <= v and v < 0x1000000)
+    r = Resolver()
+    r.rom_type = RomType[rom_type_name]
+    bus = r.get_bus()
+    check("bus_exists", bus is not None and bus.editable is False)
+    if rom_type_name == "low_rom_2":
+        bank = busmath.bank_of(v)
+        if 0x80 <= bank and bank <= 0xCF and busmath.low16(v) >= 0x8000:
+            check("low2_offsets", bus.get_address(v).physical == (bank - 0x80) * 0x8000 + busmath.low16(v) - 0x8000)
+
+
+def exports_symbol_file_contract(program, expected):
+    """exports_symbol_file: one line per label definition made outside loop iterations: 'bb:oooo name'."""
+    ghost("fs", {})
+    program.exports_symbol_file("out.sym")
+    f = ghost_get("opened:out.sym")
+    text = "".join(f.written)
+    check("symbol_file_text", text == expected)
